@@ -128,7 +128,20 @@ func runList(dir string, focus string, env *execEnv, caseStr string) (res *Sx, v
 		return errSx(err), nil
 	}
 	if focus != "" && conns == nil && peers == nil {
-		return Ls(At("ok"), At("nofocus")), nil
+		var v []Violation
+		warned := false
+		for _, e := range ca.Errors() {
+			if !e.IsSevere() && !e.IsFatal() && strings.Contains(e.Error().Error(), focus) {
+				warned = true
+			}
+			if e.IsSevere() || e.IsFatal() {
+				v = append(v, Violation{Prop: "C16", Kind: "absent-focus-error", Detail: "absent focus workload " + focus + " produced an error entry: " + e.Error().Error(), Case: caseStr})
+			}
+		}
+		if !warned && focus != "ingress-controller" {
+			v = append(v, Violation{Prop: "C16", Kind: "absent-focus-no-warning", Detail: "absent focus workload " + focus + ": empty result without a warning naming it", Case: caseStr})
+		}
+		return Ls(At("ok"), At("nofocus")), v
 	}
 	env.count("list-ok")
 	viols = append(viols, checkWellFormed(conns, peers, caseStr)...)
@@ -159,13 +172,29 @@ func execWorldCase(c *Sx, env *execEnv) (*Sx, []Violation) {
 		return out.Add(At("io-error")), nil
 	}
 	var viols []Violation
+	var unfocused *Sx
 	for _, q := range args[2:] {
 		switch q.Head() {
 		case "list":
-			r, v := runList(dir, undash(q.L[1].A), env, c.String())
+			if len(q.L) < 2 {
+				out.Add(At("bad-query"))
+				continue
+			}
+			focus := undash(q.L[1].A)
+			r, v := runList(dir, focus, env, c.String())
 			out.Add(r)
 			viols = append(viols, v...)
 			noteWorldNontrivial(w, r, env)
+			if focus == "" {
+				unfocused = r
+			} else if unfocused != nil && unfocused.Head() == "ok" {
+				if d := checkFocusFilter(unfocused, r, focus); d != "" {
+					viols = append(viols, Violation{Prop: "C16", Kind: "focus-not-a-filter", Detail: "focus " + focus + ": " + d, Case: c.String()})
+				}
+				env.count("focus-compared")
+			} else if unfocused != nil && unfocused.Head() == "err" && r.String() != unfocused.String() {
+				viols = append(viols, Violation{Prop: "C16", Kind: "focus-changes-error", Detail: "unfocused " + unfocused.String() + " focused " + r.String(), Case: c.String()})
+			}
 		default:
 			out.Add(At("bad-query"))
 		}
@@ -195,5 +224,96 @@ func noteWorldNontrivial(w *World, r *Sx, env *execEnv) {
 	}
 	if restricted || (npeers > 1 && npairs < npeers*(npeers-1)/2) {
 		env.nontr[r.String()] = true
+	}
+}
+
+// peerMatchesFocus: a workload peer name ns/name[Kind] (or {ingress-controller}) against a focus string
+func peerMatchesFocus(peer, focus string) bool {
+	if strings.HasPrefix(peer, "{") {
+		return strings.Trim(peer, "{}") == focus
+	}
+	i := strings.LastIndex(peer, "[")
+	if i < 0 {
+		return false // IP range
+	}
+	nsName := peer[:i]
+	j := strings.Index(nsName, "/")
+	return nsName == focus || (j >= 0 && nsName[j+1:] == focus)
+}
+
+// checkFocusFilter: the focused result must be exactly the entries of the unfocused one with a matching end
+func checkFocusFilter(unf, foc *Sx, focus string) string {
+	want := map[string]bool{}
+	for _, e := range unf.Args() {
+		if e.Head() == "e" && (peerMatchesFocus(e.L[1].A, focus) || peerMatchesFocus(e.L[2].A, focus)) {
+			want[e.String()] = true
+		}
+	}
+	if foc.Head() == "err" {
+		return "focused run fails with " + foc.String()
+	}
+	got := map[string]bool{}
+	for _, e := range foc.Args() {
+		if e.Head() == "e" {
+			if got[e.String()] {
+				return "duplicate entry " + e.String()
+			}
+			got[e.String()] = true
+		}
+	}
+	for k := range want {
+		if !got[k] {
+			return "missing entry " + k
+		}
+	}
+	for k := range got {
+		if !want[k] {
+			return "extra entry " + k
+		}
+	}
+	return ""
+}
+
+func init() {
+	families["focus"] = family{
+		gen: func(r *Rng, id int, tier string) *Sx {
+			cfg := &genCfg{anp: r.P(40), banp: true, pods: true, namedOnIPPct: 0, maxNP: 4, maxWl: 5}
+			w := genWorld(r, cfg)
+			c := Ls(At("wcase"), Ai(int64(id)), w.Sx(), Ls(At("list"), At("-")))
+			seen := map[string]bool{}
+			add := func(f string) {
+				if !seen[f] {
+					seen[f] = true
+					c.Add(Ls(At("list"), At(f)))
+				}
+			}
+			for _, o := range w.Objs {
+				switch o.Kind {
+				case "wl":
+					add(o.Wl.Name)
+					if r.P(50) {
+						add(o.Wl.NS + "/" + o.Wl.Name)
+					}
+				case "pod":
+					n := o.Pod.OwnerName
+					if n == "" {
+						n = o.Pod.Name
+					}
+					add(n)
+					if r.P(50) {
+						add(o.Pod.NS + "/" + n)
+					}
+				}
+			}
+			add("nosuchworkload")
+			if r.P(30) {
+				add("ns0/nosuch")
+			}
+			if r.P(20) {
+				add("ingress-controller")
+			}
+			return c
+		},
+		exec: execWorldCase,
 	}
 }
